@@ -4,7 +4,10 @@
 package c06
 
 import (
+	metav1 "k8s.io/apimachinery/pkg/apis/meta/v1"
+
 	"fmt"
+	corev1alpha1 "package-operator.run/apis/core/v1alpha1"
 	"sort"
 	"strings"
 
@@ -62,7 +65,7 @@ func Check(before *world.World, ev world.Event, pass *world.Pass, after *world.W
 		}
 		post, prev := r.Post, r.Pre
 		id := world.IdentOf(osKey, post)
-		phases := osw.SpecPhases(post, osKey.Namespace)
+		phases := osw.SpecPhasesIn(before.S, post, osKey.Namespace) // incl. the content of referenced ObjectSlices
 		// what the pass saw
 		seenControlled := map[string]bool{}
 		allPresentPassing := true
@@ -99,7 +102,7 @@ func Check(before *world.World, ev world.Event, pass *world.Pass, after *world.W
 					allSpecControlled = false
 					continue
 				}
-				if !osw.RefProbe(resp) {
+				if !osw.ProbeFor(post)(resp) {
 					allPresentPassing, why = false, fmt.Sprintf("%s fails its probes in what the pass read", ok)
 				}
 				if world.ControlledBy(resp, false, id) {
@@ -214,7 +217,7 @@ func checkPhase(before *world.World, pass *world.Pass) []world.Finding {
 				bad("phase-available-without-evidence", "ObjectSetPhase %s status write #%d sets Available=True although %s was not found present in this pass", pk.Name, i, ok)
 				continue
 			}
-			if !osw.RefProbe(resp) {
+			if !osw.ProbeFor(post)(resp) {
 				bad("phase-available-without-evidence", "ObjectSetPhase %s status write #%d sets Available=True although %s fails its probes in what the pass read (status class %s)", pk.Name, i, ok, osw.StatusClass(resp))
 			}
 			if world.ControlledBy(resp, false, id) {
@@ -242,7 +245,7 @@ func keysOf(m map[string]bool) []string {
 // ---- systems ----
 
 type scenario struct {
-	Kind     string   `json:"kind"` // single | chain | takeover
+	Kind     string   `json:"kind"` // single | chain | takeover | sliced
 	N        int      `json:"phases"`
 	Mask     uint     `json:"delegated"`
 	Classes  []string `json:"classes"`
@@ -295,6 +298,16 @@ func system(sc scenario) *world.System {
 			}
 			if sc.Kind == "single" {
 				w.MustCreate(world.NewObjectSet("r1", osw.PhaseSpecs(osw.B1(sc.N, sc.Mask), 1), world.StdProbes()))
+			} else if sc.Kind == "sliced" {
+				// the phases' objects live in ObjectSlices; a lagging cache may hide a slice from a pass
+				ps := osw.PhaseSpecs(osw.B1(sc.N, sc.Mask), 1)
+				for i := range ps {
+					name := fmt.Sprintf("r1-slice-%d", i)
+					w.MustCreate(&corev1alpha1.ObjectSlice{ObjectMeta: metav1.ObjectMeta{Name: name, Namespace: world.NS}, Objects: ps[i].Objects})
+					ps[i].Slices, ps[i].Objects = []string{name}, nil
+				}
+				w.MustCreate(world.NewObjectSet("r1", ps, world.StdProbes()))
+				w.Budget["stale"] = 1
 			} else if sc.Kind == "takeover" {
 				// r2 contains everything r1 has: after the handover r1 controls nothing, so its
 				// archival teardown completes in the very first pass
@@ -318,6 +331,17 @@ func system(sc scenario) *world.System {
 			evs = append(evs, osw.GCEvent(w)...)
 			evs = append(evs, osw.CrashEvents(w)...)
 			evs = append(evs, osw.ConflictEventsAll(w)...)
+			if w.Budget["stale"] > 0 {
+				for _, k := range w.S.SortedKeys() {
+					if k.Kind == "ObjectSlice" {
+						k := k
+						evs = append(evs, world.Event{Name: "reconcile-stale:os:r1 (cache misses slice " + k.Name + ")", Apply: func(w *world.World) *world.Pass {
+							w.Budget["stale"]--
+							return w.Reconcile(world.CtrlObjectSet, osw.NN("r1"), &world.Plan{HideInList: []kmodel.Key{k}})
+						}})
+					}
+				}
+			}
 			return evs
 		},
 		Check: Check,
@@ -339,6 +363,7 @@ func scenarios(quick bool) []scenario {
 		// archival interrupted by a crash between any two calls (e.g. finalizer removed, status not yet written)
 		{Kind: "single", N: 2, Mask: 0, Classes: []string{"ready"}, Archive: true, Restarts: 1, Conflicts: 1},
 		{Kind: "takeover", N: 1, Classes: []string{"ready"}, Archive: true, Restarts: 1, Conflicts: 1},
+		{Kind: "sliced", N: 2, Mask: 0, Classes: two, Archive: true},
 		{Kind: "chain", N: 1, Classes: []string{"ready"}, Archive: true, LongLived: true},
 		{Kind: "single", N: 2, Mask: 0b10, Classes: []string{"ready"}, Pauses: 1, Delete: true, LongLived: true},
 	}
@@ -356,7 +381,7 @@ func scenarios(quick bool) []scenario {
 
 func run(o checks.Opts) *report.Report {
 	rep := report.New("C06", "bfs")
-	rep.Rule = "explicit-state BFS: reconcile(ObjectSets, ObjectSetPhases), workload status changes, user pause/unpause/archive/delete, garbage collector, operator crash before request i, a foreign write landing before write i of a pass (update conflict); two systems run all passes of a history in one long-lived operator process; systems: single ObjectSet (2-3 phases, local/delegated) a two-revision handover chain r1{a,b}->r2{a,c}, and a complete takeover r1{a}->r2{a,c} (r1's archival teardown finishes in its first pass) with crashes; monitor on every status write of the ObjectSet controller"
+	rep.Rule = "explicit-state BFS: reconcile(ObjectSets, ObjectSetPhases), workload status changes, user pause/unpause/archive/delete, garbage collector, operator crash before request i, a foreign write landing before write i of a pass (update conflict); two systems run all passes of a history in one long-lived operator process; systems: a sliced ObjectSet whose lagging cache may hide a slice from a pass, single ObjectSet (2-3 phases, local/delegated) a two-revision handover chain r1{a,b}->r2{a,c}, and a complete takeover r1{a}->r2{a,c} (r1's archival teardown finishes in its first pass) with crashes; monitor on every status write of the ObjectSet controller"
 	scs := scenarios(o.Quick())
 	rep.Bounds["systems"] = len(scs)
 	for i, sc := range scs {
@@ -392,9 +417,9 @@ func init() {
 		},
 		Subs: []*checks.Sub{{Name: "bfs", Shards: func(t string) int {
 			if t == "thorough" {
-				return 14
+				return 15
 			}
-			return 9
+			return 10
 		}, Run: run, Replay: replay, Parallel: true}},
 	})
 }
